@@ -76,7 +76,11 @@ func (rn *runner) runMatchCase(c *Case) {
 			rn.emit(obj("ev", js("pathver"), "param", js(op.Key), "versions", jarr(op.Versions), "res", js(res)))
 		case "headerver":
 			cur = op
-			res, _ := guard(func() { hv = mux.NewHeaderVersion(op.Key, op.Val, func(error) {}, op.Versions...) })
+			var errlog func(error)
+			if op.Val == "" { // the default key gets an explicit log function, a custom key the default (nil) one
+				errlog = func(error) {}
+			}
+			res, _ := guard(func() { hv = mux.NewHeaderVersion(op.Key, op.Val, errlog, op.Versions...) })
 			rn.emit(obj("ev", js("headerver"), "param", js(op.Key), "key", js(op.Val), "versions", jarr(op.Versions), "res", js(res)))
 		case "pv", "hvm":
 			ctx := types.NewContext()
